@@ -572,7 +572,7 @@ func elemValues(es []elemX, whole *dg.Val, o *orcTable) []string {
 				v = whole // primitive payload mapped to a parameter
 			}
 		}
-		if (v == nil || v.K == "null") && e.Loc == "param" && e.Att.DefaultValue != nil {
+		if (v == nil || v.K == "null") && e.Loc == "param" && e.Att.DefaultValue != nil && !e.Required {
 			v = goDefaultToVal(e.Att.DefaultValue)
 		}
 		out = append(out, valTerm(e.Att, v, o, 0))
